@@ -13,3 +13,14 @@ func (j *Job) VerifPendingSnapshot() *snapshots.VerifPending {
 func (j *Job) VerifStatus() string {
 	return j.status.String()
 }
+
+// VerifSync returns when every task queued before the call has been processed.
+// Unlike a registration or deregistration it does not evaluate the cluster.
+func (j *Job) VerifSync() {
+	done := make(chan struct{})
+	j.taskQueue <- func() error {
+		close(done)
+		return nil
+	}
+	<-done
+}
